@@ -10,6 +10,12 @@ part ops : ["wrap", kind]  kind in def|async|method|if|try|with|for|nested|while
            ["tabs"]         indentation added by wraps uses one TAB per level instead of 4 spaces
            ["comment"]      trailing comments on logical lines
            ["alias"]        `import X` -> `import X as X_al` with uses renamed (token level)
+           ["sameline", k]  k-th single-line call V -> (V, V): two sites on one physical line
+           ["nest", k]      k-th single-line call f(x, y) -> f(f(x, y), y): a site nested in an argument of the same kind of site
+           ["addarg", k, s] k-th single-line call gets one more argument (s = pos|kw|star|comma)
+           ["quote", k, s]  k-th plain string literal: delimiters flipped / the other quote character put inside
+           ["tuplerhs",k,s] k-th simple assignment gets a bare-tuple or lambda right-hand side
+           ["dupimport"]    second binding of the first imported module in the same block, and a use of it
 file ops : ["prepend", n, style]  style in comment|blank|docstring
            ["append", n]
            ["eol", "crlf"|"mixed"]
@@ -257,6 +263,150 @@ def op_alias(code):
     return "".join(lines)
 
 
+def op_dupimport(code):
+    """Bind the module of the first plain top-level `import X[.Y]` a second time under an alias, in the
+    same import block, and use the alias: `import X` -> `import X` + `import X as X_dup` ... `_use_dup = X_dup`."""
+    try:
+        tree = ast.parse(code)
+    except SyntaxError:
+        return code
+    for st_ in tree.body:
+        if isinstance(st_, ast.Import) and len(st_.names) == 1 and st_.names[0].asname is None:
+            name = st_.names[0].name
+            alias = name.replace(".", "_") + "_dup"
+            lines = code.splitlines(keepends=True)
+            end = st_.end_lineno
+            lines.insert(end, f"import {name} as {alias}\n")
+            return "".join(lines) + f"_use_dup = {alias}\n"
+    return code
+
+
+def _single_line_calls(code):
+    """(lineno, col, end_col, node) of every single-line Call in source order."""
+    try:
+        tree = ast.parse(code)
+    except SyntaxError:
+        return []
+    out = []
+    for n in ast.walk(tree):
+        if isinstance(n, ast.Call) and n.lineno == n.end_lineno:
+            out.append((n.lineno, n.col_offset, n.end_col_offset, n))
+    return sorted(out, key=lambda t: (t[0], t[1], -t[2]))
+
+
+def _byte_slice(line, a, b):
+    raw = line.encode("utf-8")
+    return raw[:a].decode("utf-8"), raw[a:b].decode("utf-8"), raw[b:].decode("utf-8")
+
+
+def op_sameline(code, k):
+    """Put a second copy of the k-th single-line call on the same line: `V` -> `(V, V)`."""
+    calls = _single_line_calls(code)
+    if not calls:
+        return code
+    ln, a, b, _ = calls[k % len(calls)]
+    lines = code.splitlines(keepends=True)
+    pre, v, post = _byte_slice(lines[ln - 1], a, b)
+    lines[ln - 1] = f"{pre}({v}, {v}){post}"
+    return "".join(lines)
+
+
+def op_nest(code, k):
+    """Nest the k-th single-line call inside a copy of itself: `f(x, y)` -> `f(f(x, y), y)`, `f()` -> `f(f())`."""
+    calls = _single_line_calls(code)
+    if not calls:
+        return code
+    ln, a, b, node = calls[k % len(calls)]
+    lines = code.splitlines(keepends=True)
+    pre, v, post = _byte_slice(lines[ln - 1], a, b)
+    pos = [x for x in node.args if not isinstance(x, ast.Starred)]
+    if pos and pos[0].lineno == ln and pos[0].end_lineno == ln:
+        p0 = pos[0]
+        _, head, _ = _byte_slice(lines[ln - 1], a, p0.col_offset)
+        _, tail, _ = _byte_slice(lines[ln - 1], p0.end_col_offset, b)
+        new = head + v + tail
+    elif not node.args and not node.keywords:
+        new = v[:-1] + v + ")"
+    else:
+        return code
+    lines[ln - 1] = pre + new + post
+    return "".join(lines)
+
+
+def op_addarg(code, k, style):
+    """Give the k-th single-line call one more argument: positional, keyword, *star or just a trailing comma."""
+    calls = _single_line_calls(code)
+    if not calls:
+        return code
+    ln, a, b, node = calls[k % len(calls)]
+    lines = code.splitlines(keepends=True)
+    pre, v, post = _byte_slice(lines[ln - 1], a, b)
+    if not v.endswith(")"):
+        return code
+    has_args = bool(node.args or node.keywords)
+    inner = v[:-1].rstrip()
+    if inner.endswith(","):
+        return code
+    extra = {"pos": "_extra", "kw": "key=_extra", "star": "*_extra", "comma": ""}[style]
+    if style == "pos" and node.keywords:
+        extra = "key2=_extra"
+    if style == "comma":
+        if not has_args:
+            return code
+        new = inner + ",)"
+    else:
+        new = inner + (", " if has_args else "") + extra + ")"
+    lines[ln - 1] = pre + new + post
+    return "".join(lines)
+
+
+def op_quote(code, k, style):
+    """k-th plain single-line string literal: flip its delimiters, or put the *other* quote character inside."""
+    try:
+        toks = [t for t in tokenize.generate_tokens(io.StringIO(code).readline) if t.type == tokenize.STRING]
+    except (tokenize.TokenError, IndentationError, SyntaxError):
+        return code
+    toks = [t for t in toks if t.start[0] == t.end[0] and t.string[0] in "'\"" and not t.string.startswith(("\'\'\'", '"""')) and len(t.string) >= 2]
+    if not toks:
+        return code
+    t = toks[k % len(toks)]
+    q = t.string[0]
+    other = '"' if q == "'" else "'"
+    body = t.string[1:-1]
+    if style == "flip":
+        if other in body or "\\" in body:
+            return code
+        new = other + body + other
+    else:  # inject the other quote character
+        mid = len(body) // 2
+        if "\\" in body[max(0, mid - 1):mid + 1]:
+            return code
+        new = q + body[:mid] + other + body[mid:] + q
+    lines = code.splitlines(keepends=True)
+    l = lines[t.start[0] - 1]
+    lines[t.start[0] - 1] = l[: t.start[1]] + new + l[t.end[1]:]
+    return "".join(lines)
+
+
+def op_tuplerhs(code, k, style):
+    """k-th single-line simple assignment `x = V` -> `x = V, 1` (bare tuple) or `x = lambda: V`."""
+    try:
+        tree = ast.parse(code)
+    except SyntaxError:
+        return code
+    cands = [n for n in ast.walk(tree) if isinstance(n, ast.Assign) and len(n.targets) == 1 and isinstance(n.targets[0], ast.Name)
+             and n.value.lineno == n.value.end_lineno == n.lineno and not isinstance(n.value, (ast.Tuple, ast.Lambda))]
+    if not cands:
+        return code
+    cands.sort(key=lambda n: (n.lineno, n.col_offset))
+    n = cands[k % len(cands)]
+    lines = code.splitlines(keepends=True)
+    pre, v, post = _byte_slice(lines[n.lineno - 1], n.value.col_offset, n.value.end_col_offset)
+    new = f"{v}, 1" if style == "tuple" else f"lambda: {v}"
+    lines[n.lineno - 1] = pre + new + post
+    return "".join(lines)
+
+
 def render_part(part, i):
     """-> (text, results_doc_shifted_within_part, applied_ops, dropped_ops)"""
     code = part["code"]
@@ -278,6 +428,19 @@ def render_part(part, i):
         elif op[0] == "alias":
             new, dl, dc = op_alias(code), 0, 0
             if doc is not None:  # columns would shift unpredictably
+                new = code
+        elif op[0] in ("sameline", "nest"):
+            new, dl, dc = (op_sameline if op[0] == "sameline" else op_nest)(code, op[1]), 0, 0
+            if doc is not None:  # columns of the reported locations would no longer be known
+                new = code
+        elif op[0] in ("addarg", "quote", "tuplerhs"):
+            fn = {"addarg": op_addarg, "quote": op_quote, "tuplerhs": op_tuplerhs}[op[0]]
+            new, dl, dc = fn(code, op[1], op[2]), 0, 0
+            if doc is not None:
+                new = code
+        elif op[0] == "dupimport":
+            new, dl, dc = op_dupimport(code), 0, 0
+            if doc is not None:  # lines below the import would shift
                 new = code
         else:
             continue
@@ -314,7 +477,7 @@ def render(case, filename="code.py"):
             docs.append(shift_doc(part["results"], line_base + dline, dcol, filename))
         parts_txt.append(code)
         line_base += code.count("\n")
-        labels += ["op:" + (o[0] + ("=" + str(o[1]) if len(o) > 1 else "")) for o in applied]
+        labels += ["op:" + (o[0] + ("=" + str(o[1]) if len(o) > 1 and o[0] == "wrap" else "")) for o in applied]
         dropped_all += dropped
     if not parts_txt:
         part = case["parts"][0]
@@ -395,6 +558,12 @@ def part_ops():
             st.just(["tabs"]),
             st.just(["comment"]),
             st.just(["alias"]),
+            st.just(["dupimport"]),
+            st.tuples(st.just("sameline"), st.integers(0, 5)).map(list),
+            st.tuples(st.just("nest"), st.integers(0, 5)).map(list),
+            st.tuples(st.just("addarg"), st.integers(0, 5), st.sampled_from(["pos", "kw", "star", "comma"])).map(list),
+            st.tuples(st.just("quote"), st.integers(0, 5), st.sampled_from(["flip", "inject"])).map(list),
+            st.tuples(st.just("tuplerhs"), st.integers(0, 5), st.sampled_from(["tuple", "lambda"])).map(list),
         ),
         max_size=3,
         unique_by=lambda o: o[0] if o[0] != "wrap" else None or repr(o),
